@@ -2,6 +2,8 @@
 From NL.Model Require Import VM.
 From NL.Spec Require Import GCInv VMInv.
 From NL.Proofs Require GCProofs VMGCProofs.
+From NL.Spec Require Import Sem Fragment Fragment2 Fragment2h Fragment3 Fragment4.
+From NL.Proofs Require CompileCorrectJ9 CompileCorrectJ10.
 Open Scope Z_scope.
 
 (* a collection never gets stuck, never frees twice, never visits a released box; the mark recursion's fuel is never exhausted *)
@@ -52,6 +54,14 @@ Proof. exact VMGCProofs.vm_return_total. Qed.
 Theorem vm_inv_run_loop : forall (orc : oracle) (prog : program) (n : nat) (s : vm) (r : outcome val) (s' : vm) (k : nat), VMInv prog s -> run_loop orc prog n s = (r, s', k) -> match r with | Ok v => VMGCProofs.halted_at prog v s' | _ => VMInv prog s' end.
 Proof. exact VMGCProofs.vm_inv_run_loop. Qed.
 
+(* SOURCE level, whole language (in_F4): every box the program's value reaches in the semantics' heap has a related box that is ALIVE, with related contents, in the heap the machine leaves behind - although a collection ran at every function return and the collector was dropped at the end *)
+Theorem reachable_never_reclaimed_source : forall (orc : oracle) (p : block), in_F4 p = true -> ends_expr p = true -> lits_exact (lits_b p) -> forall bc : bytecode, compile p = Ok bc -> forall fuel : nat, (size3_b p <= fuel)%nat -> sem_small orc fuel p (length (b_constants bc)) -> forall (v : val) (hs : heap) (out : text), sem_program orc fuel p = SemValue v hs out -> (exists (budget : nat) (v' : val) (hm : heap) (R : loc_rel), o_result (run_program orc bc budget) = Ok v' /\ o_heap (run_program orc bc budget) = Ok hm /\ val_rel4 R v v' /\ graph_rel4 R hs hm /\ (forall l : positive, reach hs [v] l -> exists (l' : positive) (o o' : obj), R l l' /\ h_alive hm l' = true /\ h_get hs l = Ok o /\ h_get hm l' = Ok o' /\ obj_rel4 R o o')) \/ hits_excluded4 (CompileCorrectJ5.fun_table p) orc bc.
+Proof. exact CompileCorrectJ10.reachable_never_reclaimed_source. Qed.
+
+(* and during the run no program observes a freed or recycled object: the machine with its collector computes what the collection-free semantics computes *)
+Theorem compile_correct_F4 : forall (orc : oracle) (p : block), in_F4 p = true -> ends_expr p = true -> lits_exact (lits_b p) -> forall bc : bytecode, compile p = Ok bc -> forall fuel : nat, (size3_b p <= fuel)%nat -> sem_program orc fuel p <> SemFuel -> sem_small orc fuel p (length (b_constants bc)) -> (exists budget : nat, obs_eq4 (run_program orc bc budget) (sem_program orc fuel p)) \/ hits_excluded4 (CompileCorrectJ5.fun_table p) orc bc.
+Proof. exact CompileCorrectJ9.compile_correct_F4. Qed.
+
 
 Print Assumptions run_no_fault.
 Print Assumptions run_preserves_reachable.
@@ -65,3 +75,5 @@ Print Assumptions run_no_heap_fault.
 Print Assumptions vm_collect_preserves.
 Print Assumptions vm_return_total.
 Print Assumptions vm_inv_run_loop.
+Print Assumptions reachable_never_reclaimed_source.
+Print Assumptions compile_correct_F4.
